@@ -37,11 +37,16 @@ def run(ck: Check) -> None:
             signed["timestamp"], signed["expiration"] = ts, ex
         # every shape the schema allows is typed: optional members absent (version without timestamp, timestamp without version for non-root),
         # unknown extra members, members in another order, numbers spelled as bools
-        shape = i % 7
+        shape = i % 8
         if shape == 2:
             signed.pop("timestamp", None)
         elif shape == 4 and T != "root":
             signed.pop("version", None)
+        elif shape == 7:
+            # text the schema leaves free — the spec-version string, the names of delegated roles — holding lone surrogates, NUL, astral characters: still
+            # well-formed delegating metadata, so its declared type is still bound to the role
+            signed["metadata_spec_version"] = rng.choice(["\ud800", "0.6.0\udfff", "\x00", "\U0001f600", "é"])
+            signed.setdefault("delegations", {})[rng.choice(["\ud800role", "r\udc00", "\x00", "\U0001f511"])] = gen.delegation([gen.key(9)], 1)
         elif shape == 5:
             signed[rng.choice(["note", "extra", "Type", "é"])] = rng.choice([None, 1, "x", [], {"a": 1}])
         elif shape == 6:
